@@ -18,14 +18,15 @@ Record tb := {
 
 (* the asset problem a (asset name nm) realises S through the decoding dec:
    every feasible x decodes to an admissible state that costs no more and has the flows x reports;
-   every admissible state is reached by a feasible x of exactly its cost and flows *)
+   every admissible state is reached by a feasible x of exactly its cost and flows that decodes to it *)
 Definition realises (nm : string) (a : aprob) (dec : vec -> vec) (S : tb) : Prop :=
   (forall x, feasible (ap_lp a) x ->
      tb_adm S (dec x) /\ tb_cost S (dec x) <= dot (lp_c (ap_lp a)) x /\
      forall n t, dispatch_out (ap_map a) x nm n t == tb_flow S (dec x) n t) /\
   (forall y, tb_adm S y -> exists x, feasible (ap_lp a) x /\
      dot (lp_c (ap_lp a)) x == tb_cost S y /\
-     forall n t, dispatch_out (ap_map a) x nm n t == tb_flow S y n t).
+     (forall n t, dispatch_out (ap_map a) x nm n t == tb_flow S y n t) /\
+     Forall2 Qeq (dec x) y).
 
 Record unit_ := { u_name : string; u_prob : aprob; u_dec : vec -> vec; u_tb : tb }.
 Definition u_ok (u : unit_) : Prop :=
@@ -141,6 +142,17 @@ Qed.
 Lemma Forall2_impl' {A B} (P Q : A -> B -> Prop) l1 l2 :
   (forall a b, P a b -> Q a b) -> Forall2 P l1 l2 -> Forall2 Q l1 l2.
 Proof. intros H. induction 1; constructor; auto. Qed.
+
+Lemma F2_Qeq_refl (l : vec) : Forall2 Qeq l l.
+Proof. induction l; constructor; [reflexivity|assumption]. Qed.
+
+Lemma F2_nth (l1 l2 : vec) : List.length l1 = List.length l2 ->
+  (forall k, (k < List.length l1)%nat -> nth k l1 0 == nth k l2 0) -> Forall2 Qeq l1 l2.
+Proof.
+  revert l2. induction l1 as [|a l1 IH]; intros [|b l2] L H; simpl in L; try discriminate; constructor.
+  - apply (H 0%nat). simpl. lia.
+  - apply IH; [lia|]. intros k Hk. apply (H (S k)). simpl. lia.
+Qed.
 
 Lemma qsum_F2 l1 l2 : Forall2 Qeq l1 l2 -> qsum l1 == qsum l2.
 Proof. induction 1 as [|a b l1 l2 E _ IH]; cbn [qsum]; [reflexivity|]. rewrite E, IH. reflexivity. Qed.
@@ -269,7 +281,7 @@ Proof.
   { clear - Hok HA. induction HA as [|u y us ys Ay _ IH].
     - exists []. split; constructor.
     - inversion Hok as [|? ? Hu Hus]; subst. destruct (IH Hus) as (xs & F & G).
-      destruct Hu as (_ & _ & (_ & R2)). destruct (R2 y Ay) as (x & Fx & Cx & Flx).
+      destruct Hu as (_ & _ & (_ & R2)). destruct (R2 y Ay) as (x & Fx & Cx & Flx & _).
       exists (x :: xs). split; [constructor; assumption|]. cbn [combine]. constructor; [split; assumption|exact G]. }
   destruct HX as (xs & HFs & HG).
   assert (HL : Forall2 (fun u x => List.length x = nvars (ap_lp (u_prob u))) us xs).
@@ -316,6 +328,21 @@ Proof.
   split; [split; [exact RF|]|unfold value; lra].
   intros ys2 RF2. destruct (reference_to_lp nodes skip steps us ys2 Hok Hnd RF2) as (xs2 & _ & F2 & C2).
   pose proof (Hopt _ F2) as Hle2. unfold value in Hle2. lra.
+Qed.
+
+(* ---------- adding rows that express a predicate of the decoded state ---------- *)
+Lemma with_rows_realises nm a dec S rows (Q : vec -> Prop) :
+  realises nm a dec S ->
+  (forall x, feasible (ap_lp a) x -> (Forall (row_ok x) rows <-> Q (dec x))) ->
+  (forall y y', Forall2 Qeq y y' -> (Q y <-> Q y')) ->
+  realises nm {| ap_lp := add_rows (ap_lp a) rows; ap_map := ap_map a |} dec
+           {| tb_adm := fun y => tb_adm S y /\ Q y; tb_cost := tb_cost S; tb_flow := tb_flow S |}.
+Proof.
+  intros [R1 R2] HQ Hresp. split; cbn [ap_lp ap_map tb_adm tb_cost tb_flow].
+  - intros x Hf. apply add_rows_feasible in Hf. destruct Hf as [Hf Hr]. destruct (R1 x Hf) as (A & C & F).
+    split; [split; [exact A|apply (HQ x Hf); exact Hr]|]. split; [exact C|exact F].
+  - intros y [Ay Qy]. destruct (R2 y Ay) as (x & Hf & C & F & D). exists x. split; [|split; [exact C|split; [exact F|exact D]]].
+    apply add_rows_feasible. split; [exact Hf|]. apply (HQ x Hf). apply (Hresp (dec x) y D). exact Qy.
 Qed.
 
 (* ====================================================================================== *)
@@ -483,7 +510,7 @@ Proof.
   - intros y Hy. exists y. pose proof Hy as (Ly & _). split; [|split].
     + split; [rewrite EP; cbn [lp_l lp_u]; apply transport_box; exact Hy|rewrite EP; constructor].
     + rewrite EP. cbn [lp_c]. apply transport_cost. exact Hy.
-    + intros n t. apply transport_flow. exact Ly.
+    + split; [intros n t; apply transport_flow; exact Ly|apply F2_Qeq_refl].
 Qed.
 
 Theorem transport_unit_ok :
@@ -807,7 +834,7 @@ Proof.
     + intros nd t. apply storage_flow.
   - intros y Hy. exists y. split; [apply storage_feasible_iff; exact Hy|]. split.
     + rewrite EP. cbn [lp_c]. fold price. apply storage_cost. apply Hy.
-    + intros nd t. apply storage_flow.
+    + split; [intros nd t; apply storage_flow|apply F2_Qeq_refl].
 Qed.
 
 Theorem storage_unit_ok :
@@ -873,6 +900,83 @@ Proof.
 Qed.
 Lemma Qmult_le_l_compat' k a b : 0 <= k -> a <= b -> k * a <= k * b.
 Proof. intros Hk H. assert (0 <= k * (b - a)) by (apply Qmult_le_0_compat; lra). lra. Qed.
+
+(* ---------- take rows (assets.py:968-1004): the volume delivered in the steps of the period against the prorated value ---------- *)
+Definition step_flow (mp : list mrow) (x : vec) (t : nat) : Q :=
+  qsum (map (fun r => m_factor r * nth (m_var r) x 0) (filter (fun r => Nat.eqb (m_step r) t && true) mp)).
+Definition take_steps (rg : rgrid) (tk : take) : list nat :=
+  map snd (filter (fun p => in_window (fst (fst tk)) (snd (fst tk)) (fst p)) (combine (rg_tp rg) (rg_I rg))).
+(* textbook: the volume of the steps whose time point lies in the period *)
+Definition take_volume (rg : rgrid) (y : vec) (tk : take) : Q := qsum (map (step_sum_off (rg_I rg) 0 y) (take_steps rg tk)).
+Definition cmp_ok (ty : rtype) (lhs rhs : Q) : Prop :=
+  match ty with RU => lhs <= rhs | RL => rhs <= lhs | _ => lhs == rhs end.
+(* ... compared with the right-hand side of the emitted row (the prorated value: C02_take_prorated); no row = no restriction *)
+Definition take_ok (g : grid) (rg : rgrid) (mp : list mrow) (ty : rtype) (y : vec) (tk : take) : Prop :=
+  Forall (fun r => cmp_ok ty (take_volume rg y tk) (r_b r)) (take_row g rg mp None ty tk).
+
+Lemma sdot_rows_flat (f : nat -> mrow -> bool) mp steps x :
+  sdot (map (fun r => (m_var r, m_factor r)) (flat_map (fun t => filter (f t) mp) steps)) x ==
+  qsum (map (fun t => qsum (map (fun r => m_factor r * nth (m_var r) x 0) (filter (f t) mp))) steps).
+Proof.
+  induction steps as [|t steps IH]; cbn [flat_map map qsum]; [reflexivity|].
+  rewrite map_app, sdot_app, IH. apply Qplus_inj_r. unfold sdot. rewrite map_map. reflexivity.
+Qed.
+
+Lemma take_row_spec g rg mp ty tk r x : In r (take_row g rg mp None ty tk) ->
+  r_t r = ty /\ sdot (r_a r) x == qsum (map (step_flow mp x) (take_steps rg tk)).
+Proof.
+  destruct tk as [[s e] v]. unfold take_row, take_steps. cbn [fst snd].
+  set (steps := map snd (filter (fun p => in_window s e (fst p)) (combine (rg_tp rg) (rg_I rg)))).
+  destruct (flat_map _ steps) as [|r0 rows] eqn:E; [intros []|]. intros [<-|[]]. cbn [r_t r_a]. split; [reflexivity|].
+  rewrite <- E. rewrite (sdot_rows_flat (fun t r => Nat.eqb (m_step r) t && true)). reflexivity.
+Qed.
+
+Lemma take_rows_iff g rg mp ty tks x (vol : take -> Q) :
+  (forall tk, qsum (map (step_flow mp x) (take_steps rg tk)) == vol tk) ->
+  (Forall (row_ok x) (take_rows g rg mp None ty tks) <->
+   Forall (fun tk => Forall (fun r => cmp_ok ty (vol tk) (r_b r)) (take_row g rg mp None ty tk)) tks).
+Proof.
+  intros Hv. unfold take_rows. induction tks as [|tk tks IH]; cbn [flat_map]; [split; constructor|].
+  rewrite Forall_app, IH. split.
+  - intros [H1 H2]. constructor; [|exact H2]. apply Forall_forall. intros r Hr. rewrite Forall_forall in H1. specialize (H1 r Hr).
+    destruct (take_row_spec g rg mp ty tk r x Hr) as [Et Es]. unfold row_ok in H1. rewrite Et in H1. unfold cmp_ok. destruct ty; rewrite Es, Hv in H1; exact H1.
+  - intros H. inversion H as [|? ? H1 H2]; subst. split; [|exact H2]. apply Forall_forall. intros r Hr. rewrite Forall_forall in H1. specialize (H1 r Hr).
+    destruct (take_row_spec g rg mp ty tk r x Hr) as [Et Es]. unfold row_ok. rewrite Et. unfold cmp_ok in H1. destruct ty; rewrite Es, Hv; exact H1.
+Qed.
+
+(* one block of one-variable-per-step rows: the entries at step t *)
+Lemma step_flow_mk_rows_gen name node ty vn off x t : forall (I : list nat) (fac : vec) (s : nat),
+  List.length fac = List.length I ->
+  qsum (map (fun r => m_factor r * nth (m_var r) x 0)
+     (filter (fun r => Nat.eqb (m_step r) t && true)
+        (map (fun p => Build_mrow (off + fst (fst p)) name node ty (snd (fst p)) (snd p) vn false)
+             (combine (combine (seq s (List.length I)) I) fac)))) ==
+  qsum (map (fun k => if Nat.eqb (nth k I 0%nat) t then nth k fac 0 * nth (off + s + k) x 0 else 0) (seq 0 (List.length I))).
+Proof.
+  induction I as [|i I IH]; intros fac s Hl; destruct fac as [|f fac]; simpl in Hl; try discriminate; [reflexivity|].
+  change (List.length (i :: I)) with (Datatypes.S (List.length I)). rewrite qsum_seq_front.
+  cbn [seq combine map filter m_step fst snd]. cbn [nth].
+  assert (R : qsum (map (fun k => if Nat.eqb (nth k I 0%nat) t then nth k fac 0 * nth (off + s + Datatypes.S k) x 0 else 0) (seq 0 (List.length I)))
+           == qsum (map (fun k => if Nat.eqb (nth k I 0%nat) t then nth k fac 0 * nth (off + Datatypes.S s + k) x 0 else 0) (seq 0 (List.length I)))).
+  { apply qsum_map_ext. intros k _. replace (off + Datatypes.S s + k)%nat with (off + s + Datatypes.S k)%nat by lia. reflexivity. }
+  rewrite R. rewrite <- (IH fac (Datatypes.S s)) by lia. rewrite Nat.add_0_r.
+  destruct (Nat.eqb i t); cbn [andb map qsum m_var m_factor]; [reflexivity|ring].
+Qed.
+Lemma step_flow_mk_rows name node ty vn off I x t :
+  step_flow (mk_rows name node ty vn off (ones (List.length I)) I) x t == step_sum_off I off x t.
+Proof.
+  unfold step_flow, mk_rows. rewrite (step_flow_mk_rows_gen name node ty vn off x t I (ones (List.length I)) 0) by apply repeat_length.
+  unfold step_sum_off. apply qsum_map_ext. intros k Hk. apply in_seq in Hk. unfold ones. rewrite nth_repeat_q by lia.
+  rewrite Nat.add_0_r. destruct (Nat.eqb _ t); ring.
+Qed.
+Lemma step_flow_app m1 m2 x t : step_flow (m1 ++ m2) x t == step_flow m1 x t + step_flow m2 x t.
+Proof. unfold step_flow. rewrite filter_app, map_app, qsum_app. reflexivity. Qed.
+
+Lemma take_volume_ext rg y y' tk : Forall2 Qeq y y' -> take_volume rg y tk == take_volume rg y' tk.
+Proof.
+  intros H. unfold take_volume. apply qsum_map_ext. intros t _. unfold step_sum_off. apply qsum_map_ext. intros k _.
+  destruct (Nat.eqb _ t); [|reflexivity]. cbn [Nat.add]. revert k. induction H as [|a b l l' E _ IH]; intros [|k]; cbn [nth]; try reflexivity; auto.
+Qed.
 
 (* textbook contract: volume per step within [min, max] x step length; price on the flow plus a spread on |flow|, discounted *)
 Definition tb_contract (rg : rgrid) (node : string) (pr ec minc maxc : vec) : tb :=
@@ -999,7 +1103,7 @@ Proof.
     split.
     + intros x [Hbx _]. rewrite EP in Hbx. cbn [lp_l lp_u] in Hbx. apply Box in Hbx. destruct (Core x Hbx) as [C F].
       split; [exact Hbx|]. split; [rewrite EP; cbn [lp_c]; rewrite C; lra|exact F].
-    + intros y Hy. exists y. destruct (Core y Hy) as [C F]. split; [|split; [rewrite EP; exact C|exact F]].
+    + intros y Hy. exists y. destruct (Core y Hy) as [C F]. split; [|split; [rewrite EP; exact C|split; [exact F|apply F2_Qeq_refl]]].
       split; [rewrite EP; cbn [lp_l lp_u]; apply Box; exact Hy|rewrite EP; constructor].
   - (* ---------- in/out split ---------- *)
     destruct SH as [EP EM].
@@ -1073,7 +1177,12 @@ Proof.
            rewrite A, B by lra. rewrite Qabs_neg by lra. ring.
         -- destruct (qmin0_spec (nth t y 0)) as [_ A]. destruct (qmax0_spec (nth t y 0)) as [B _].
            rewrite A, B by lra. rewrite Qabs_pos by lra. ring.
-      * intros n t. rewrite Flow. cbn [S tb_contract tb_flow]. destruct (String.eqb n (cp_node p)); [|reflexivity].
+      * assert (Dy : Forall2 Qeq (dec_split T x) y).
+        { apply F2_nth; [unfold dec_split; rewrite map_length, seq_length; symmetry; exact Ly|].
+          intros k Hk. unfold dec_split in Hk. rewrite map_length, seq_length in Hk.
+          rewrite dec_split_nth by exact Hk. rewrite (X0 k Hk), (X1 k Hk). apply qmin0_qmax0. }
+        split; [|exact Dy].
+        intros n t. rewrite Flow. cbn [S tb_contract tb_flow]. destruct (String.eqb n (cp_node p)); [|reflexivity].
         rewrite FlowDec. unfold step_sum_off. apply qsum_map_ext. intros k Hk. apply in_seq in Hk. cbn [Nat.add].
         assert (Hk' : (k < T)%nat) by (unfold T, rg_T; lia).
         rewrite dec_split_nth by exact Hk'. rewrite (X0 k Hk'), (X1 k Hk'). destruct (Nat.eqb _ t); [apply qmin0_qmax0|reflexivity].
@@ -1094,5 +1203,62 @@ Proof.
       apply Forall_app. split.
       * eapply Forall_impl; [|apply (mk_rows_wf _ _ _ _ 0)]. intros r [E L]. split; [exact E|]. unfold T, rg_T in *. lia.
       * eapply Forall_impl; [|apply (mk_rows_wf _ _ _ _ T)]. intros r [E L]. split; [exact E|]. unfold T, rg_T in *. lia.
+Qed.
+
+(* ---------------- Contract = SimpleContract + max take (U) + min take (L) rows ---------------- *)
+Lemma contract_step_flow x t : step_flow (ap_map a) x t == step_sum_off (rg_I rg) 0 (dec x) t.
+Proof.
+  pose proof contract_shape as SH. unfold dec. destruct single; destruct SH as [_ EM]; rewrite EM.
+  - apply step_flow_mk_rows.
+  - rewrite step_flow_app.
+    transitivity (step_sum_off (rg_I rg) 0 x t + step_sum_off (rg_I rg) T x t);
+      [apply Qplus_comp; [exact (step_flow_mk_rows _ _ _ _ 0 (rg_I rg) x t)|exact (step_flow_mk_rows _ _ _ _ T (rg_I rg) x t)]|].
+    unfold step_sum_off. rewrite <- qsum_map_add. apply qsum_map_ext. intros k Hk. apply in_seq in Hk.
+    cbn [Nat.add]. rewrite dec_split_nth by (unfold T, rg_T; lia). fold T. destruct (Nat.eqb _ t); ring.
+Qed.
+
+Definition tb_contract_takes (mx mn : list take) : tb :=
+  {| tb_adm := fun y => tb_adm S y /\
+                 (Forall (take_ok g rg (ap_map a) RU y) mx /\ Forall (take_ok g rg (ap_map a) RL y) mn);
+     tb_cost := tb_cost S; tb_flow := tb_flow S |}.
+
+Definition take_all_rows (mx mn : list take) : list crow :=
+  take_rows g rg (ap_map a) None RU mx ++ take_rows g rg (ap_map a) None RL mn.
+
+Theorem contract_takes_realises mx mn :
+  realises (cp_name p) {| ap_lp := add_rows (ap_lp a) (take_all_rows mx mn); ap_map := ap_map a |} dec (tb_contract_takes mx mn).
+Proof.
+  apply (with_rows_realises (cp_name p) a dec S (take_all_rows mx mn)
+           (fun y => Forall (take_ok g rg (ap_map a) RU y) mx /\ Forall (take_ok g rg (ap_map a) RL y) mn) contract_realises).
+  - intros x _. unfold take_all_rows. rewrite Forall_app.
+    assert (Hv : forall tk, qsum (map (step_flow (ap_map a) x) (take_steps rg tk)) == take_volume rg (dec x) tk).
+    { intros tk. unfold take_volume. apply qsum_map_ext. intros t _. apply contract_step_flow. }
+    rewrite (take_rows_iff g rg (ap_map a) RU mx x (take_volume rg (dec x)) Hv).
+    rewrite (take_rows_iff g rg (ap_map a) RL mn x (take_volume rg (dec x)) Hv). reflexivity.
+  - intros y y' Hy.
+    assert (E1 : forall ty tk, take_ok g rg (ap_map a) ty y tk <-> take_ok g rg (ap_map a) ty y' tk).
+    { intros ty tk. pose proof (take_volume_ext rg y y' tk Hy) as Ev. unfold take_ok.
+      split; intros H; (eapply Forall_impl; [|exact H]); intros r Hr; cbn beta in *; unfold cmp_ok in *; destruct ty; lra. }
+    assert (E : forall ty tks, Forall (take_ok g rg (ap_map a) ty y) tks <-> Forall (take_ok g rg (ap_map a) ty y') tks).
+    { intros ty tks. split; intros H; apply Forall_forall; intros tk Htk; rewrite Forall_forall in H; apply E1; apply H; exact Htk. }
+    rewrite (E RU mx), (E RL mn). reflexivity.
+Qed.
+
+Theorem contract_takes_unit_ok mx mn :
+  u_ok {| u_name := cp_name p; u_prob := {| ap_lp := add_rows (ap_lp a) (take_all_rows mx mn); ap_map := ap_map a |};
+          u_dec := dec; u_tb := tb_contract_takes mx mn |}.
+Proof.
+  destruct contract_unit_ok as (W & M & _). cbn [u_name u_prob u_dec u_tb] in *.
+  unfold u_ok. cbn [u_name u_prob u_dec u_tb ap_lp ap_map]. split; [|split; [exact M|exact (contract_takes_realises mx mn)]].
+  destruct W as (Wl & Wu & Wr). unfold wf_lp, nvars, add_rows. cbn [lp_c lp_l lp_u lp_rows]. split; [exact Wl|split; [exact Wu|]].
+  apply Forall_app. split; [exact Wr|]. unfold take_all_rows. apply Forall_app.
+  assert (TW : forall ty tks, Forall (fun r => srow_wf (List.length (lp_c (ap_lp a))) (r_a r)) (take_rows g rg (ap_map a) None ty tks)).
+  { intros ty tks. unfold take_rows. apply Forall_forall. intros r Hr. apply in_flat_map in Hr. destruct Hr as (tk & _ & Hr).
+    destruct tk as [[s e] v]. unfold take_row in Hr.
+    destruct (flat_map _ _) as [|r0 rows] eqn:E; [destruct Hr|]. destruct Hr as [<-|[]]. cbn [r_a]. rewrite <- E.
+    unfold srow_wf. apply Forall_map. apply Forall_forall. intros mr Hmr. cbn [fst].
+    apply in_flat_map in Hmr. destruct Hmr as (t & _ & Hmr). apply filter_In in Hmr. destruct Hmr as [Hmr _].
+    rewrite Forall_forall in M. destruct (M mr Hmr) as [_ Hv]. exact Hv. }
+  split; apply TW.
 Qed.
 End ContractInstance.
